@@ -206,6 +206,18 @@ theorem compound_unify_sound_partial (a b u : Compound)
       hsymP p (List.mem_filter.1 hp).1 p' (List.mem_filter.1 hp').1)]
   rfl
 
+/-- **Refutation** of the unify law for the code as it is, third deviation (known finding
+C24-super-parent-strict): `selector.unify("a > c", "b + .d")` = `a > b + c.d`, and the as-is
+`is-superselector("a > c", …)` rejects it because its `>` arm does not look through the `+`;
+the specification model accepts it. -/
+theorem unify_asis_parent_strict_refuted :
+    let A : SelSet := [.rel .parent (.leaf (Compound.ofElem "a")) (Compound.ofElem "c")]
+    let B : SelSet := [.rel .adjacent (.leaf (Compound.ofElem "b")) (Compound.ofClass "d")]
+    SelSet.print false (SelSet.unify unifyAsis A B) = "a > b + c.d".toList
+      ∧ SelSet.isSuper superAsis A (SelSet.unify unifyAsis A B) = false
+      ∧ SelSet.isSuper superAsis B (SelSet.unify unifyAsis A B) = true
+      ∧ SelSet.isSuper superSpec A (SelSet.unify unifySpec A B) = true := by decide
+
 /-! ### nest -/
 
 /-- **selector.nest = rule nesting**: for a selector list `a` without `&` (a `CssSelectorSet`)
